@@ -84,7 +84,7 @@ def expected_conds(P, step_conds):
 def build_sides(ctx):
     d = ctx.bdir('corr'); os.makedirs(d, exist_ok=True)
     ext = ('From Coq Require Import Extraction ExtrOcamlBasic.\nRequire Import Num C44_Model.\nExtraction Language OCaml.\n'
-           'Extraction "c44_x.ml" pgs_solve make_rhs final_verr steps_wfb inv_check resid_check sweep.\n')
+           'Extraction "c44_x.ml" pgs_solve make_rhs final_verr steps_wfb inv_check resid_check sweep pgs_bilateral bilateral_check.\n')
     if not ctx.extract(ext, d):
         ctx.broken.append(('correspondence:C44', 'extraction of the model failed')); return None
     drv = open(os.path.join(VERIF, 'ocaml', 'C44_drv.ml')).read().replace('(*FOPS*)', open(os.path.join(VERIF, 'ocaml', 'fops.inc')).read())
@@ -222,6 +222,63 @@ def certificates(ctx, exe, drv, probs, o1, nplus):
             ctx.broken.append(('certificate:C44:' + what, 'returned impulses violate the documented conditions: %s' % a[:300]))
         ctx.report(key, 'impulse solver output violates the documented conditions (%s)' % what, {'failing_input': il[:4000], 'implementation_output': a[:1000]})
 
+def bilateral(ctx, exe, drv, n):
+    """solveBilateral of both solvers: only unconditional rows, P (A+D) ~P P pi = P rhs and pi = 0 off the participating set.
+    PGS: correspondence with the model (pgs_bilateral).  PLUS: FactorQTZ inside, so its answer is CERTIFIED with the extracted bilateral_check
+    (a certificate decides it because the solution is unique for a positive definite block: C44_bilateral_certificate_unique).
+    Participating sets: strict subsets in permuted order as well as everything in order; D: empty vector, zero, uniform, NON-UNIFORM."""
+    r = ctx.rng; H = hexf; pgs = []; plus = []; meta = []; hist = {}
+    for i in range(n):
+        m = r.randint(2, 9); q = m + r.randint(0, 3)
+        G = [[r.uniform(-1, 1) for _ in range(q)] for _ in range(m)]
+        A = [[sum(G[a][k] * G[b][k] for k in range(q)) + (0.3 if a == b else 0.0) for b in range(m)] for a in range(m)]   # positive definite
+        dk = r.choice(('empty', 'zero', 'uniform', 'nonuniform', 'nonuniform', 'nonuniform'))
+        D = {'empty': [], 'zero': [0.0] * m, 'uniform': [r.uniform(0.1, 1.0)] * m}.get(dk)
+        if D is None: D = [r.choice((0.0, r.uniform(0, 2.0))) for _ in range(m)]; D[r.randrange(m)] = r.uniform(0.5, 2.0)
+        sk = r.choice(('all-in-order', 'strict-sorted', 'strict-permuted', 'strict-permuted', 'all-permuted'))
+        part = list(range(m))
+        if sk.startswith('strict'): part = sorted(r.sample(range(m), r.randint(1, m - 1)))
+        if sk.endswith('permuted'): r.shuffle(part)
+        rhs = [r.uniform(-1, 1) for _ in range(m)]
+        body = ' '.join([str(m)] + [H(x) for row in A for x in row] + [str(len(D))] + [H(x) for x in D] + [H(x) for x in rhs] + [str(len(part))] + [str(k) for k in part])
+        maxit = r.choice((1, 3, 10, 200)); tol = r.choice((1e-6, 1e-10))
+        pgs.append('PGSB %d %s %s' % (maxit, H(tol), body)); plus.append('PLUSB 0 %s %s' % (H(0.0), body)); meta.append(body)
+        hist['D=%s/part=%s' % (dk, sk)] = hist.get('D=%s/part=%s' % (dk, sk), 0) + 1
+    o1 = run_lines(exe, pgs, 'C++ probe (PGS solveBilateral)', ctx); o2 = run_lines(drv, pgs, 'OCaml driver (pgs_bilateral)', ctx)
+    o3 = run_lines(exe, plus, 'C++ probe (PLUS solveBilateral)', ctx)
+    if o1 is None or o2 is None or o3 is None: return
+    dis = []; worst = 0.0
+    for l, a, b in zip(pgs, o1, o2):
+        sa, sb = secs(a), secs(b); ok = sa[0][0] == 'OK' and sb[0][0] == 'OK' and sa[0][1] == sb[0][1]
+        if ok:
+            pa = [float.fromhex(x) for x in sa[1]]; pb = [float.fromhex(x) for x in sb[1]]; sc = max([1.0] + [abs(x) for x in pa])
+            for x, y in zip(pa, pb):
+                if x != x or y != y or abs(x - y) > PI_RTOL * sc: ok = False
+                else: worst = max(worst, abs(x - y) / sc)
+        if not ok: dis.append((l, a, b))
+    cert = []; bad = []
+    for body, a in zip(meta, o3):
+        sa = secs(a)
+        if sa[0][0] != 'OK' or sa[0][1] != '1': bad.append(('PLUS:solveBilateral-returned-failure', body, a)); continue
+        cert.append('BIL %s %s %s' % (H(1e-9), body, ' '.join(sa[1])))
+    res = run_lines(drv, cert, 'OCaml bilateral certificate', ctx) if cert else []
+    if res is None: return
+    for c, line, a in zip(cert, res, [a for a in o3 if secs(a)[0][0] == 'OK' and secs(a)[0][1] == '1']):
+        if line.strip() != '1': bad.append(('PLUS:solveBilateral-certificate', c, a))
+    ctx.add_cases(len(pgs) + len(plus), len(pgs) + len(cert), [{'case': plus[0][:200], 'cxx': o3[0][:200], 'certificate': (res[0] if res else '')}])
+    ctx.extra.setdefault('correspondence', {})['solveBilateral'] = {'pgs_cases': len(pgs), 'pgs_disagreements': len(dis), 'pgs_measured_max_rel_difference': worst,
+        'plus_cases': len(plus), 'plus_certificates_checked': len(cert), 'plus_failures': len(bad), 'certificate_tolerance': 1e-9, 'input_distribution': dict(sorted(hist.items()))}
+    if dis:
+        l, a, b = dis[0]
+        ctx.broken.append(('correspondence:C44:PGS-solveBilateral', 'model and implementation differ on case "%s": cxx=%s model=%s (%d disagreements)' % (l[:300], a[:300], b[:300], len(dis))))
+    seen = set()
+    for what, c, a in bad:
+        if what in seen: continue
+        seen.add(what)
+        ctx.broken.append(('certificate:C44:' + what, 'PLUSImpulseSolver::solveBilateral output fails the bilateral certificate ((A+D) pi = rhs on the participating rows, 0 elsewhere): %s (%d such)' % (a[:300], sum(1 for q in bad if q[0] == what))))
+        ctx.report('impl:' + what, 'PLUSImpulseSolver::solveBilateral: returned impulses do not satisfy (A+D) pi = rhs on the participating rows / are not 0 off them',
+                   {'failing_input': 'PLUSB 0 0x0p+0 ' + (c.split(' ', 2)[2] if c.startswith('BIL') else c)[:4000], 'implementation_output': a[:1000]})
+
 def run(ctx):
     ctx.build_repo()
     ctx.coq_props(PROPS)
@@ -234,6 +291,8 @@ def run(ctx):
         if got:
             certificates(ctx, exe, drv, got[0], got[1], 150 if quick else 2000)
             ctx.log('certificates done')
+        bilateral(ctx, exe, drv, 300 if quick else 4000)
+        ctx.log('solveBilateral done')
     ctx.cov['rule'] = ('random subproblems: 0-3 unconditional constraints (1-3 rows), 0-4 unilateral contacts (participating / known with expansion impulse / observing, '
                        'with or without a friction pair, either sign convention), 0-2 bounded rows (also lb = ub), 0-2 state-limited and constraint-limited friction sets; '
                        'A = G G^T (+ridge) positive (semi)definite, D >= 0 with zeros, random verrStart / verrApplied; iteration limits 1,2,3,5,20,100 and tolerances 1e-3,1e-6,1e-10; '
